@@ -61,13 +61,15 @@ def cell (m : List (List Nat)) (i j : Nat) : Nat := (m.getD i []).getD j 0
 section Labels
 variable {L : Type} [DecidableEq L]
 
-/-- the counting loop: `for (i1, i2) in indices.into_iter().flatten() { m[(i1,i2)] += 1.0 }`;
+/-- one iteration of the counting loop `for (i1, i2) in indices.into_iter().flatten() { m[(i1,i2)] += 1.0 }`;
 pairs with a label outside `cs` are skipped (`flatten` drops the `None`s) -/
+def countStep (cs : List L) (m : List (List Nat)) (p : L × L) : List (List Nat) :=
+  match indexOf p.1 cs, indexOf p.2 cs with
+  | some i, some j => incr m i j
+  | _, _ => m
+
 def countLoop (cs : List L) (pairs : List (L × L)) : List (List Nat) :=
-  pairs.foldl (fun m p =>
-    match indexOf p.1 cs, indexOf p.2 cs with
-    | some i, some j => incr m i j
-    | _, _ => m) (zeros cs.length)
+  pairs.foldl (countStep cs) (zeros cs.length)
 
 variable [LT L] [DecidableLT L]
 
